@@ -24,6 +24,8 @@ WIDE_SIZES = {
     "quick": [8, 9, 15, 16, 17, 24, 31, 32, 33],
     "thorough": [8, 9, 15, 16, 17, 31, 32, 33, 63, 64, 65, 127, 128, 129, 130, 255, 256, 257, 300],
 }
+# (arrays of more than 4 KiB / 64 KiB: block sizes, "small enough to ..." fast paths)
+HUGE_SIZES = {"quick": [520, 1030], "thorough": [520, 1030, 2050, 4100, 16500]}
 WIDE_ENUM_SIZES = [12, 40, 127, 128, 130, 200, 256]
 SPECIAL = {
     "float": [-0.0, 1e-7, -1e-7, 16777217.0, 3.0e38, -3.0e38, 0.1, 1e20, "nan", "inf", "-inf"],
@@ -37,8 +39,9 @@ def wide_knob(rng: random.Random, tier: str, p: float) -> dict | None:
     """Drawn once per scenario; None for an ordinary (narrow) world."""
     if not chance(rng, p):
         return None
+    t = "thorough" if tier == "thorough" else "quick"
     return {
-        "persons": WIDE_SIZES["thorough" if tier == "thorough" else "quick"] if chance(rng, 0.7) else None,
+        "persons": (HUGE_SIZES[t] if chance(rng, 0.15) else WIDE_SIZES[t]) if chance(rng, 0.7) else None,
         "special": pick(rng, [0.0, 0.3, 0.6]),
         "nonfinite": chance(rng, 0.5),
         "enum": chance(rng, 0.5),
@@ -266,7 +269,9 @@ class ExprGen:
             return self.const()
         kind = weighted(rng, [("b", 6), ("w", 2), ("im", 1.5)])
         if kind == "b":
-            op = pick(rng, ["+", "+", "-", "*", "min", "max"])
+            # ("/": a ratio, as an average rate is; 0 / 0 is NaN and x / 0 infinite for the
+            # entities concerned, as in real rule systems - worlds may opt out)
+            op = pick(rng, ["+", "+", "-", "*", "min", "max"] + ([] if self.world.get("no_ratio") else ["/"]))
             return ["b", op, self.expr(depth - 1), self.expr(depth - 1)]
         if kind == "w":
             cop = pick(rng, ["<", "<=", ">", ">=", "=="])
@@ -337,6 +342,7 @@ def gen_world(
     max_depth=2,
     n_groups=None,
     wide: dict | None = None,
+    ratio: bool = True,
 ) -> dict:
     """discipline: acyclic | spiral | cyclic."""
     ents = gen_entities(rng, n_groups)
@@ -355,6 +361,8 @@ def gen_world(
     }
     if wide:
         world["wide"] = wide
+    if not ratio:
+        world["no_ratio"] = True
     n_vars = n_vars or rng.randint(4, 12)
     if discipline in ("spiral", "spiral_cyclic"):
         # quasi-circular chains need variables sharing a unit
@@ -614,6 +622,9 @@ def period_for_unit(rng: random.Random, unit: str) -> str:
 
 _REQ_MONTHS = ["2018-01", "2018-02", "2018-03", "2018-04", "2018-12", "2019-01", "2017-12"]
 _REQ_YEARS = ["2018", "2019", "2017"]
+# rolling years (a year starting on the first of another month): legal periods of a
+# year-defined variable, and the only aligned ones that overlap calendar years in part
+_ROLLING_YEARS = ["year:2018-03", "year:2017-07", "year:2018-07", "year:2017-12"]
 _REQ_DAYS = ["2018-01-01", "2018-01-02", "2018-02-28", "2018-03-01"]
 
 
@@ -633,6 +644,8 @@ def gen_request(rng: random.Random, world: dict, *, prefer_formulas=True, allow_
             return ["calculate_divide", v["name"], pick(rng, _REQ_MONTHS)]
         if allow_options and numeric and chance(rng, 0.05):
             return ["calculate_add", v["name"], "year:2018:2"]
+        if chance(rng, 0.1):
+            return ["calculate", v["name"], pick(rng, _ROLLING_YEARS)]
         return ["calculate", v["name"], pick(rng, _REQ_YEARS)]
     if u == "day":
         if allow_options and numeric and chance(rng, 0.1):
@@ -657,6 +670,8 @@ def gen_inputs(rng: random.Random, world: dict, p=0.5):
                     per = pick(rng, ["2018", "2017"])
             elif u == "year":
                 per = pick(rng, _REQ_YEARS + ["2016"])
+                if chance(rng, 0.15):
+                    per = pick(rng, _ROLLING_YEARS)
             elif u == "day":
                 per = pick(rng, _REQ_DAYS)
                 if v.get("set_input") and chance(rng, 0.3):
